@@ -24,10 +24,10 @@ ENGINES = [
         "kind_free_text": "crosshair-tool symbolic execution (z3) of harnesses over the real control logic, with AST cuts regenerated from the current source",
     },
     {
-        "name": "E4-ASTtoSMT",
-        "path": "vf/astsmt.py",
-        "serves_properties": ["C12", "C13"],
-        "kind_free_text": "straight-line Python AST of leaf kernels translated to z3 bit-vectors / integers",
+        "name": "E4-DuckTypedKernels",
+        "path": "vf/props/c12.py (BVInt), vf/props/c19.py (DigitStr, SymInt)",
+        "serves_properties": ["C12", "C19"],
+        "kind_free_text": "leaf kernels executed on duck-typed symbolic objects: z3 bit-vectors through the real next-Hamming-weight bit trick (C12), digit strings with symbolic digits through the real natural-key functions (C19); obligations decided by z3 (QF_BV / LIA)",
     },
 ]
 
